@@ -2,13 +2,5 @@
 
 package actor
 
-import "sync"
-
-// VerifResetSegmentPool gives the segmented mailbox an empty segment pool, so that what a
-// case observes of segment recycling depends on that case alone.
-func VerifResetSegmentPool() {
-	segmentPool = sync.Pool{New: func() any { return new(segment) }}
-}
-
 // VerifSegmentSize is the segment size constant of the segmented mailbox.
 func VerifSegmentSize() int { return segmentSize }
